@@ -16,7 +16,7 @@ theorem selfStepNP_keepsProg (val : Val) (voters : List Id) (n : Nat) (hcfg : (c
   have hdel : Deliverable m.typ := by
     unfold Deliverable; rcases hty with h | h <;> simp [h]
   rcases Nat.lt_or_eq_of_le hle with hlt | heq
-  · have key := step_lower_run 2 m r hinv.st.cq hinv.st.pv h0 hlt hdel
+  · have key := step_lower_run 2 m r h0 hlt hdel (by rcases hty with h | h <;> simp [h])
     refine ⟨NoErr.of_ok key, ?_⟩
     rw [Spec.iff_runs]
     intro e r' hr
